@@ -243,3 +243,27 @@ def run(F, rep):
     extra = {e for e in extra if 'mUnknownVariables' not in e[0]}
     early = [x for x in walk(lp2) if x.get('k') in ('Break', 'Return', 'Continue')]
     rep.check(not extra and not early, 'C05.E1', 'variables', am.where(pbs[0]), 'an unknown variable is listed only when %s (or the loop is left early): the equation does not list everything it computes' % sorted(extra), 'every unknown variable is listed')
+
+    rep.rule('C05.E2', 'the equations listed with a public variable are ALL internal equations that have it among their unknowns (a variable of an NLA system is computed by every equation of that system): '
+                       'the list is filled inside a loop over all of mInternalEquations with no early exit')
+    eqpb = [c for c in walk(loop) if c.get('k') == 'Call' and c.get('fn') in ('push_back', 'emplace_back') and render(receiver(c)) == 'equations']
+    if not eqpb:
+        raise AnalysisBroken('analyseModel: the list of equations of a public variable is no longer filled in the variable loop')
+    for c in eqpb:
+        inner = None
+        for anc in am.ancestors(c):
+            if anc is loop:
+                break
+            if anc.get('k') == 'RangeFor' and 'mInternalEquations' in render(anc['c'][1]):
+                inner = anc
+                break
+            if anc.get('k') == 'For' and 'mInternalEquations' in render(role(anc, 'cond')):
+                inner = anc
+                break
+        early = [x for x in walk(inner) if x.get('k') in ('Break', 'Return')] if inner is not None else []
+        rep.check(inner is not None and not early, 'C05.E2', 'equations-of-variable', am.where(c),
+                  'the equations of a variable are not gathered by a complete loop over mInternalEquations (first match only, or early exit): a variable of an NLA system lists one of its equations only', 'complete loop over mInternalEquations')
+
+    # ------------------------------------------------------------------ H: analyser state is rebuilt for every model (clause shared with C12)
+    import c12
+    c12.rule_h1(F, rep, 'C05.H1', [st for st in c12.STATE if st[0] == 'Analyser::AnalyserImpl'])
